@@ -34,10 +34,12 @@ MODELLED = ('frame.encode_frame: whole validation cascade (tables regenerated fr
             'native encoders (pack_bits, little-endian words); frame.decode_frame: bit-packed path with frame '
             'offset, pydicom native path (option/length validation, words, unused-bit correction); '
             'pydicom EncodeRunner.validate for the encapsulated syntaxes; pydicom RLE Lossless encoder and decoder '
-            '(bytes and decoded array model-compared); decode_frame entry-point validation with arbitrary parameters. '
+            '(bytes and decoded array model-compared); decode_frame as the whole entry point with arbitrary parameters '
+            '(decode_frame_entry: frame index on every path, several native frames with planar configuration 0 / 1, '
+            'another transfer syntax, encapsulate refusing an empty and padding an odd value). '
             'JPEG-LS / JPEG 2000 codecs are premises.')
 STRATA = ['matrix_native', 'matrix_encaps', 'rt_native', 'rt_bits', 'rt_rle', 'rt_jls', 'nofit',
-          'decode_malformed', 'rle_malformed', 'decode_params', 'bit_index', 'ybr_full']
+          'decode_malformed', 'rle_malformed', 'decode_params', 'decode_entry', 'bit_index', 'ybr_full']
 NOT_EXECUTED = ['JPEG 2000 / JPEG 2000 Lossless encoding (pylibjpeg-openjpeg not installed): only the '
                 'validation cascade in front of the codec is exercised']
 RULE = ('matrix_*: cells of the parameter matrix (syntax x array shape x bits allocated x bits stored x '
@@ -49,7 +51,10 @@ RULE = ('matrix_*: cells of the parameter matrix (syntax x array shape x bits al
         'bit_index: multi-frame bit-packed streams, every residue of frame size mod 8, 1 or 3 samples; '
         'rt_rle also draws run-structured content (runs of 1..258 around the 128 limit, rows of 127..300 pixels); '
         'rle_malformed: truncated / extended RLE streams, header or body byte replaced; decode_params: decode_frame '
-        'with one parameter different from the encoding call. '
+        'with one parameter different from the encoding call; decode_entry: encode, damage (cut / extend / empty), '
+        'decode with one or two parameters different (rows, columns, samples, bits allocated / stored, pixel '
+        'representation, planar configuration, photometric interpretation, transfer syntax, frame index) - '
+        'oracle: same parameters at any index / the other native syntax must return the original. '
         'non-trivial = accepted frame with more than one distinct value, or a refusal; distinct by case hash')
 EXHAUSTIVE = {'quick': False, 'thorough': False}
 
@@ -430,6 +435,69 @@ def gen_cases(rng, tier):
             q['pr'] = 1
         c['q'] = q
         cases.append(c)
+    # ---- decode_frame as the WHOLE entry point: encode with p, damage the bytes, decode with q (one or two
+    #      parameters different, the transfer syntax and the frame index included): several native colour frames
+    #      with planar configuration 0 / 1, index on every path, odd / empty encapsulated values
+    eperts = ['same', 'index', 'rows-', 'rows-pl1', 'pl1', 'ts', 'tsx', 'cut', 'empty', 'spp', 'ba', 'bs-', 'pr1',
+              'plNone', 'pixrep2', 'pi', 'cols', 'ext']
+    for i in range({'quick': 90, 'thorough': 1200, 'search': 500}[tier]):
+        ts = ['expl', 'rle', 'impl'][i % 3]
+        pert = eperts[(i // 3) % len(eperts)]
+        colour = rng.random() < 0.5 or pert in ('rows-pl1', 'pl1', 'plNone')
+        s = 3 if colour else 1
+        ba = rng.choice([8, 16] if ts == 'rle' else [1, 8, 16, 32])
+        if pert in ('rows-pl1', 'pl1', 'ba', 'bs-', 'pr1') and ba == 1:
+            ba = 8
+        dt = {1: rng.choice(['uint8', 'bool']), 8: 'uint8', 16: 'uint16', 32: 'uint32'}[ba]
+        rows, cols = rng.choice([(2, 4), (1, 8), (3, 8), (2, 8), (4, 2), (6, 4)])
+        pr = 0
+        bs = ba if (ba == 1 or rng.random() < 0.6) else rng.randint(max(1, ba - 7), ba)
+        data = _fit_data(rng, rows * cols * s, dt, bs, pr)
+        c = _case('decode_entry', ts, rows, cols, colour, 3 if colour else 0, ba, bs,
+                  'RGB' if colour else rng.choice(MONO), pr, (rng.choice([0, 1]) if ts == 'rle' else 0) if colour
+                  else None, dt, data)
+        q, cut, index = {}, 0, 0
+        for pp in [pert] + ([rng.choice(eperts)] if rng.random() < 0.25 else []):
+            if pp == 'index':
+                index = rng.choice([1, 2, 3, 5, 7, 11])
+            elif pp == 'rows-':
+                divs = [r for r in range(1, rows) if rows % r == 0 or rng.random() < 0.3]
+                q['rows'] = rng.choice(divs) if divs else rows + 1
+            elif pp == 'rows-pl1':
+                divs = [r for r in range(1, rows) if rows % r == 0]
+                q['rows'] = rng.choice(divs) if divs else rows
+                q['pl'] = 1
+            elif pp == 'pl1':
+                q['pl'] = 1 if c['pl'] != 1 else 0
+            elif pp == 'ts':
+                q['ts'] = {'expl': 'impl', 'impl': 'expl', 'rle': 'rle'}[ts]
+            elif pp == 'tsx':
+                q['ts'] = {'expl': 'rle', 'impl': 'rle', 'rle': rng.choice(NATIVE)}[ts]
+            elif pp == 'cut':
+                cut = -rng.choice([1, 1, 2, 3, 5, rng.randint(1, 70)])
+            elif pp == 'empty':
+                cut = -100000
+            elif pp == 'ext':
+                cut = rng.choice([1, 2, 3, rows * cols * s * max(1, ba // 8)])
+            elif pp == 'spp' and colour:
+                q['ndim3'], q['shape2'], q['pi'], q['pl'] = False, 0, 'MONOCHROME2', None
+            elif pp == 'ba' and ba in (8, 16):
+                q['ba'] = 24 - ba
+                q['bs'] = min(bs, q['ba'])
+            elif pp == 'bs-':
+                q['bs'] = max(1, bs - rng.randint(1, 7))
+            elif pp == 'pr1':
+                q['pr'] = 1
+            elif pp == 'plNone':
+                q['pl'] = None
+            elif pp == 'pixrep2':
+                q['pr'] = 2
+            elif pp == 'pi':
+                q['pi'] = 'BOGUS'
+            elif pp == 'cols':
+                q['cols'] = rng.choice([cols + 1, max(1, cols // 2)])
+        c['q'], c['cut'], c['index'] = q, cut, index
+        cases.append(c)
     # ---- the same values in another memory layout (the array VALUE is what must round-trip), and a
     #      preceding encode/decode of the same format with the other pixel representation (history)
     rng2 = random.Random(rng.random())
@@ -598,6 +666,18 @@ def _observe(c):
                                                       q['pr'], q['pl']))
         obs['out'] = obs['dec']
         return obs
+    if k == 'decode_entry':
+        q = dict(c, **c['q'])
+        cut = c['cut']
+        v = value[:cut] if cut < 0 else value + bytes(range(1, cut + 1))
+        qs = q['shape2'] if q['ndim3'] else 1
+        obs['dec'] = _dec_val(lambda: hf.decode_frame(v, TS[q['ts']][0], q['rows'], q['cols'], qs, q['ba'], q['bs'],
+                                                      q['pi'], q['pr'], q['pl'], index=c['index']))
+        d = obs['dec']
+        if (not isinstance(d, Err)) and q['pi'] == 'YBR_FULL' and qs == 3 and q['ba'] != 1:
+            d = 'YBR_FULL->RGB'
+        obs['out'] = d
+        return obs
     if k == 'rle_malformed':
         cut = c['cut']
         v = value[:cut] if cut < 0 else value + bytes(range(1, cut + 1))
@@ -660,6 +740,9 @@ def coq_term(c):
     if k == 'decode_params':
         q = dict(c, rows=c['q']['rows'], bs=c['q']['bs'], pi=c['q']['pi'], pr=c['q']['pr'], pl=c['q']['pl'])
         return f"(run_decode_params {_params(c)} {_params(q)} {zl(vals)})"
+    if k == 'decode_entry':
+        q = dict(c, **c['q'])
+        return f"(run_decode_entry {_params(c)} {_params(q)} {zlit(c['index'])} {zlit(c['cut'])} {zl(vals)})"
     if k == 'rle_malformed':
         return f"(run_rle_damaged {_params(c)} {zlit(c['cut'])} {zlit(c['pos'])} {zlit(c['val'])} {zl(vals)})"
     if c['ts'] in NATIVE:
@@ -730,6 +813,29 @@ def oracle(c, out):
     vals = _wrapped(c)
     s = c['shape2'] if c['ndim3'] else 1
     want_shape = [c['rows'], c['cols']] + ([s] if s > 1 else [])
+    if k == 'decode_entry':
+        # same parameters (only the frame index / the other native syntax differ), undamaged bytes: the original
+        # pixels must come back; anything else is outside the round-trip clause (model comparison only)
+        q = c['q']
+        if c['cut'] == 0 and not isinstance(obs['enc'], Err) and _values_fit(c, vals) \
+                and all(kk == 'ts' and q[kk] in NATIVE and c['ts'] in NATIVE for kk in q):
+            if obs['dec'] != [want_shape, vals]:
+                return (f"decode_frame(index={c['index']}, ts={q.get('ts', c['ts'])}) of an accepted frame gives "
+                        f"{str(obs['dec'])[:160]} (original {str([want_shape, vals])[:120]})")
+        elif c['cut'] == 0 and not isinstance(obs['enc'], Err) and c['ba'] != 1 and q \
+                and all(kk in ('bs', 'pr') for kk in q) and q.get('pr', 0) in (0, 1) \
+                and 1 <= q.get('bs', c['bs']) <= c['ba']:
+            # only Bits Stored / pixel representation of the call differ: every stored word is re-interpreted
+            # (PS3.5 8.1.1: bits above Bits Stored are ignored, two's complement when signed)
+            qb, qp = q.get('bs', c['bs']), q.get('pr', c['pr'])
+            ref = []
+            for v in vals:
+                m = (v % (1 << c['ba'])) % (1 << qb)
+                ref.append(m - (1 << qb) if qp == 1 and m >= (1 << (qb - 1)) else m)
+            if obs['dec'] != [want_shape, ref]:
+                return (f"decode_frame with bits_stored={qb}, pixel_representation={qp} gives {str(obs['dec'])[:160]}, "
+                        f"the stored words read that way are {str([want_shape, ref])[:160]}")
+        return None
     if k == 'decode_params':
         return None     # decoding with other parameters is outside the round-trip clause: model comparison only
     if k == 'rle_malformed':
